@@ -366,7 +366,7 @@ func run(r *vx.Run) int {
 		"explanation":                       "own reference walker (selfref, ref, constant-ref, map index/value, enum members, disjunction/intersection branches, discriminator mapping targets incl. hints, entry point + type, builder For/args/assignments/paths/envelopes/nil-checks by reflection) applied to: every G schema in 3 formats after Input.LoadSchemas; every (G-IR ∪ grammar-I schema) after Pipeline.ContextForLanguage for 7 languages with builders; every state of a BFS over name-changing passes from the seed IRs; every allow-list subset for allowed_objects",
 	}, []string{
 		"a reference is judged only if its package is among the loaded schemas' packages",
-		"a discriminator-mapping value names an object in the package(s) of the disjunction's reference branches (the enclosing package when there is none)",
+		"a discriminator-mapping value names an object in the package(s) of the disjunction's reference branches or in the enclosing schema's package (either is accepted)",
 		"chain: a dangling reference whose target already dangled in the input is not judged; a pipeline error is an allowed outcome; a panic is counted (C04) and the schema stages are still judged",
 		"transform: states that violate the invariant are reported and not expanded, so every explored transition starts from a state in which all references resolve",
 		"allowed_objects: the entry point of a filtered schema is not judged (the statement demands exactly the listed objects plus their closure); object order is free",
